@@ -156,7 +156,23 @@ class Inter:
                 continue
             blk = cb.blocks[bb]
             if kind == "assign":
-                t = tr.rvalue(blk.stmts[idx].rv, frozenset())
+                rv = blk.stmts[idx].rv
+                # `_0 = move _tmp` where _tmp is the value of a `match` / `if` expression: one case per arm (with the arm's own
+                # guards) instead of one merged case whose polarity is unknown
+                if rv.kind == "use" and rv.ops and rv.ops[0].kind in ("move", "copy") and rv.ops[0].place.is_local():
+                    src = rv.ops[0].place.local
+                    ds = [d for d in tr.defs.get(src, []) if d[1] in live]
+                    if len(ds) >= 2 and all(d[0] in ("assign", "call") for d in ds) and not (1 <= src <= cb.arg_count):
+                        for kind2, bb2, idx2 in ds:
+                            if kind2 == "assign":
+                                t2 = tr.rvalue(cb.blocks[bb2].stmts[idx2].rv, frozenset())
+                            else:
+                                term2 = cb.blocks[bb2].term
+                                path2 = term2.func.fn["path"] if term2.func.kind == "fn" else ("indirect",)
+                                t2 = ("call", path2, tuple(tr.operand(a) for a in term2.args), (cb.id, bb2))
+                            out.append((t2, tr.guards_at(bb2), bb2))
+                        continue
+                t = tr.rvalue(rv, frozenset())
             elif kind == "call":
                 t = tr.local(0)
                 # pick this def only
